@@ -5,7 +5,7 @@ ROOT="$(cd "$(dirname "$0")/.." && pwd)"
 PROP="$1"; TIER="${2:-quick}"
 export VERIF_ROOT="$ROOT"
 case "$PROP" in
-  C19|C03|C14|C12|C17|C18) NEED=bins ;;
+  C19|C03|C14|C12|C15|C17|C18) NEED=bins ;;
   *) NEED= ;;
 esac
 "$ROOT/scripts/build.sh" $NEED || exit 3
